@@ -60,6 +60,12 @@ Simulate(s) == /\ Fitted /\ last' = <<"simulate", params, "design", s>> /\ rng' 
 Save == /\ Fitted /\ file' = params /\ last' = NoRes /\ act' = <<"Save">> /\ UNCHANGED <<params, pop, data, indlat, rng, inputsOK>> /\ Step
 Load == /\ file # NOFILE /\ params' = <<"file", file>> /\ pop' = "mode" /\ data' = "none" /\ indlat' = UNSET
         /\ last' = NoRes /\ act' = <<"Load">> /\ UNCHANGED <<rng, file, inputsOK>> /\ Step
+\* a call that fails on its inputs (events-only data given to a model without events, individual parameters lacking a
+\* variable, a table with one feature too many): an error is raised and NOTHING of the model changes - later calls behave as if
+\* it had never been made
+FailKinds == {"events_only", "bad_ips", "extra_feature"}
+FailedCall(kind) == /\ Fitted /\ last' = NoRes /\ act' = <<"FailedCall", kind>>
+                    /\ UNCHANGED <<params, pop, data, indlat, rng, file, inputsOK>> /\ Step
 BurnRng == /\ rng' = <<"arbitrary">> /\ last' = NoRes /\ act' = <<"BurnRng">> /\ UNCHANGED <<params, pop, data, indlat, file, inputsOK>> /\ Step
 
 AFit == \E D \in Datasets, s \in Seeds : Fit(D, s)
@@ -68,8 +74,9 @@ APersoScipy == \E D \in Datasets, s \in Seeds : PersoScipy(D, s)
 APersoMean == \E D \in Datasets, s \in Seeds : PersoMcmc(D, s, "mean")
 APersoMode == \E D \in Datasets, s \in Seeds : PersoMcmc(D, s, "mode")
 ASimulate == \E s \in Seeds : Simulate(s)
+AFailedCall == \E kind \in FailKinds : FailedCall(kind)
 Next == /\ ncalls < MaxCalls
-        /\ (AFit \/ AEstimate \/ APersoScipy \/ APersoMean \/ APersoMode \/ ASimulate \/ Save \/ Load \/ BurnRng)
+        /\ (AFit \/ AEstimate \/ APersoScipy \/ APersoMean \/ APersoMode \/ ASimulate \/ Save \/ Load \/ BurnRng \/ AFailedCall)
 \* directed histories: the same actions, restricted to the scripted call at each position
 ScriptedNext == /\ ncalls < Len(Script) /\ Next /\ act' = Script[ncalls + 1]
 Spec == Init /\ [][IF Script = <<>> THEN Next ELSE ScriptedNext]_vars
